@@ -331,6 +331,7 @@ func runC03(p *Prog, r *Report, tier string) {
 		r.Undecided("R-ALLOC", "anchor: make() on the decode path", "pkg/collector", fmt.Sprintf("only %d found", nMake))
 	}
 
+	checkInfoElementImmutable(p, r, "R-OWNER.info-element")
 	// (7) the decoded set length bounds the set body
 	var hdrDecode *ssa.Call
 	eachInstr(dp, func(in ssa.Instruction) {
@@ -373,6 +374,31 @@ func runC03(p *Prog, r *Report, tier string) {
 					}
 				}
 			})
+		}
+		// the trim must not be skipped for small bodies: the only lower bound allowed on the body length is "not negative"
+		if bound {
+			if tc, ok := at.(*ssa.Call); ok {
+				body := tc.Call.Args[1]
+				for _, fct := range blockFacts(tc.Block()) {
+					x, op, y := fct.X, fct.Op, fct.Y
+					if y == body {
+						x, y, op = y, x, flipOp(op)
+					}
+					if x != body {
+						continue
+					}
+					c, isC := constInt(y)
+					if !isC {
+						continue
+					}
+					excludesZero := (op == token.GTR && c >= 0) || (op == token.GEQ && c >= 1) || (op == token.NEQ && c == 0)
+					if excludesZero {
+						bound = false
+						r.Violation("R-BOUNDS.setlen", fnKey(dp)+": set body trimmed for every declared length", p.instrPos(tc),
+							fmt.Sprintf("the trim is skipped when the declared body length is %d or less (guard %s %d): an empty set followed by other bytes has those bytes decoded as its records", c, op, c))
+					}
+				}
+			}
 		}
 		r.Check(bound, "R-BOUNDS.setlen", fnKey(dp)+": decoded set length bounds the set body", p.instrPos(hdrDecode),
 			"a value derived from the 7th header variable (set length) reaches Truncate/Next on the packet buffer before the set is decoded",
